@@ -112,7 +112,12 @@ pub fn replay(prop: &'static str, path: &str) -> i32 {
             let idx = sc["index"].as_u64().unwrap_or(0);
             let base_seed = sc["base_seed"].as_u64().unwrap_or(0);
             let p = sc["for_property"].as_str().unwrap_or(prop).to_string();
-            e2e::run(&e2e_cfg(&p, idx, base_seed))
+            let cfg = e2e_cfg(&p, idx, base_seed);
+            if cfg.otel {
+                with_subscriber(SubMode::Otel, || e2e::run(&cfg))
+            } else {
+                e2e::run(&cfg)
+            }
         }
         _ => {
             println!("unknown family");
@@ -606,7 +611,7 @@ fn family_prop(ctx: &RunCtx, fams: &[&str]) -> i32 {
             }
             _ => {
                 let cfg = e2e_cfg(prop, idx, seed);
-                let mut o = e2e::run(&cfg);
+                let mut o = if cfg.otel { with_subscriber(SubMode::Otel, || e2e::run(&cfg)) } else { e2e::run(&cfg) };
                 tag(&mut o, idx, seed, prop, &tier);
                 o
             }
@@ -1186,11 +1191,20 @@ fn c20(ctx: &RunCtx) -> i32 {
     for len in 0..=6usize {
         for bits in 0..(1u32 << len) {
             let policy: Vec<bool> = (0..len).map(|b| bits & (1 << b) != 0).collect();
-            for pat in 0..3 {
+            for pat in 0..6 {
                 let results: Vec<Result<u64, String>> = (0..=len)
                     .map(|k| match pat {
                         0 => Ok(100 + k as u64),
                         1 => Err(format!("e{k}")),
+                        3 => Err("SHUTDOWN".to_string()),
+                        4 => Err(["DEADLINE", "SEND", "SHUTDOWN"][k % 3].to_string()),
+                        5 => {
+                            if k % 2 == 1 {
+                                Err("SHUTDOWN".to_string())
+                            } else {
+                                Ok(100 + k as u64)
+                            }
+                        }
                         _ => {
                             if k % 2 == 0 {
                                 Err(format!("e{k}"))
@@ -1255,6 +1269,9 @@ pub fn e2e_cfg(prop: &str, i: u64, base_seed: u64) -> ECfg {
     let seed = mix(base_seed, i.wrapping_mul(0xE2E1) ^ 0x77);
     let mut c = ECfg::random(seed);
     let mut r = Rng::new(seed ^ 0xD1CE);
+    if prop == "C18" {
+        c.otel = i % 2 == 1;
+    }
     // directed shapes: chains of every depth over every transport kind
     if i < 60 || i % 25 == 0 {
         let kinds = [Tk::Unbounded, Tk::Bounded(1), Tk::Json, Tk::Bincode];
@@ -1300,7 +1317,7 @@ fn e2e_required_cells(prop: &str) -> Vec<String> {
     let v: Vec<&str> = match prop {
         "C04" => vec!["C04.chain.head-abandoned", "C04.chain.cascade-depth2", "C04.chain.cascade-depth3"],
         "C07" => vec!["C07.hop1.serde", "C07.hop2.serde", "C07.hop3.serde", "C07.hop1.in-memory", "C07.hop3.in-memory", "C07.expired-on-send", "C07.real-transit-delay"],
-        "C18" => vec!["C18.cancel-observed", "e2e.depth3"],
+        "C18" => vec!["C18.cancel-observed", "e2e.depth3", "C18.otel-subscriber"],
         _ => vec![],
     };
     v.into_iter().map(String::from).collect()
@@ -1449,8 +1466,24 @@ enum SubMode {
     Fmt,
     Otel,
 }
+/// A dispatcher that is interested in every span stays registered for the whole process, so that
+/// tracing's per-callsite interest cache can never be left at "never" while scoped subscribers of
+/// different kinds come and go on the worker threads (which would silently disable tarpc's spans
+/// for a moment and make OpenTelemetry-mode observations nondeterministic).
+fn keepalive_dispatch() {
+    use tracing_subscriber::layer::SubscriberExt;
+    static KEEP: std::sync::OnceLock<tracing::Dispatch> = std::sync::OnceLock::new();
+    KEEP.get_or_init(|| {
+        use opentelemetry::trace::TracerProvider as _;
+        let provider = opentelemetry_sdk::trace::TracerProvider::builder().build();
+        let tracer = provider.tracer("tarpc-verif-keepalive");
+        tracing::Dispatch::new(tracing_subscriber::registry().with(tracing_opentelemetry::layer().with_tracer(tracer)))
+    });
+}
+
 fn with_subscriber<T>(m: SubMode, f: impl FnOnce() -> T) -> T {
     use tracing_subscriber::layer::SubscriberExt;
+    keepalive_dispatch();
     match m {
         SubMode::None => f(),
         SubMode::Fmt => {
@@ -1598,6 +1631,7 @@ fn c16(ctx: &RunCtx) -> i32 {
                                         json!({"family": "S-codec", "worker_replay": x["replay"]}),
                                         vec![],
                                     ));
+                                    agg.viol_idx.push(u64::MAX);
                                 }
                             }
                         }
@@ -1615,6 +1649,7 @@ fn c16(ctx: &RunCtx) -> i32 {
                         json!({"family": "S-codec", "case": "hostile-bytes worker"}),
                         vec![],
                     ));
+                    agg.viol_idx.push(u64::MAX);
                 }
             }
         }
@@ -1723,9 +1758,11 @@ fn miri_tier(ctx: &RunCtx, agg: &mut Agg, extra: &mut BTreeMap<String, Value>) {
             extra.insert("miri_tier".into(), json!({"seeds": seeds, "runs_ok": oks, "flags": "-Zmiri-disable-isolation -Zmiri-many-seeds", "sample": out.lines().find(|l| l.starts_with("MIRI-TIER")).unwrap_or("")}));
             if let Some(u) = ub {
                 agg.viols.push((Viol::new(ctx.prop, "miri-undefined-behaviour", format!("Miri reported: {u}")), json!({"family": "miri-tier", "stderr_tail": err.lines().rev().take(30).collect::<Vec<_>>()}), vec![]));
+                agg.viol_idx.push(u64::MAX);
             } else if out.contains("MIRI-TIER VIOLATION") {
                 let l = out.lines().find(|l| l.contains("MIRI-TIER VIOLATION")).unwrap_or("").to_string();
                 agg.viols.push((Viol::new(ctx.prop, "miri-tier-oracle", l), json!({"family": "miri-tier"}), vec![]));
+                agg.viol_idx.push(u64::MAX);
             } else if !o.status.success() || oks == 0 {
                 agg.inconclusive.push(format!("Miri tier did not complete (status {:?}): {}", o.status.code(), err.lines().last().unwrap_or("")));
             } else {
